@@ -692,6 +692,11 @@ impl FinishedSession {
         #[cfg(feature = "verif")]
         crate::verif::sched_point("session_commit");
 
+        // A poisoned handle must not touch anything, including the rollback log below.
+        if nomt.store.is_poisoned() {
+            anyhow::bail!("Store is poisoned due to prior error");
+        }
+
         {
             let mut shared = nomt.shared.lock();
             if shared.root != self.prev_root {
@@ -742,6 +747,11 @@ impl FinishedSession {
             .flatten();
         if write_guard.is_none() {
             return Ok(Some(self));
+        }
+
+        // A poisoned handle must not touch anything, including the rollback log below.
+        if nomt.store.is_poisoned() {
+            anyhow::bail!("Store is poisoned due to prior error");
         }
 
         // The changeset must be checked against the current root before the rollback log is
@@ -824,6 +834,11 @@ impl Overlay {
         #[cfg(feature = "verif")]
         crate::verif::sched_point("overlay_commit");
 
+        // A poisoned handle must not touch anything, including the rollback log below.
+        if nomt.store.is_poisoned() {
+            anyhow::bail!("Store is poisoned due to prior error");
+        }
+
         {
             let mut shared = nomt.shared.lock();
             if shared.root != self.prev_root() {
@@ -886,6 +901,11 @@ impl Overlay {
         let write_guard = nomt.access_lock.try_write();
         if write_guard.is_none() {
             return Ok(Some(self));
+        }
+
+        // A poisoned handle must not touch anything, including the rollback log below.
+        if nomt.store.is_poisoned() {
+            anyhow::bail!("Store is poisoned due to prior error");
         }
 
         {
